@@ -341,6 +341,11 @@ class Inliner:
                     stmts[i:i + 1] = new_stmts or [ast.Pass(lineno=st.lineno, col_offset=0)]
                 else:
                     _replace_expr(st, call, result if result is not None else ast.Constant(value=None))
+                    # `x = helper()` whose helper ends in `return x`: the assignment has become `x = x`
+                    if isinstance(st, (ast.Assign, ast.AnnAssign)) and isinstance(getattr(st, "value", None), ast.Name):
+                        tg = st.targets if isinstance(st, ast.Assign) else [st.target]
+                        if len(tg) == 1 and isinstance(tg[0], ast.Name) and tg[0].id == st.value.id:
+                            stmts[i:i + 1] = []
                     stmts[i:i] = new_stmts
                 changed = True
                 done_here = True
